@@ -135,8 +135,10 @@ pub fn plan(prop: &str, tier: &str) -> (PropMeta, Vec<Job>) {
         // the same number whether computed by the handler or by the replay (the property does not
         // ask for microsecond equality of two clock readings)
         let cfg = if l.name == "L4-users" { NodeCfg { tick: 0, ..cfg.clone() } } else { cfg.clone() };
-        for j in make_cat_jobs(prop, &cfg, l.name, &l.prelude, &l.alphabet, depth, &suffix, if quick { 300 } else { 2400 }) {
-            jobs.push(Job { prop: prop.into(), tier: tier.into(), spec: serde_json::to_value(j).unwrap() });
+        for http in [false, true] {
+            for j in make_cat_jobs(prop, &cfg, l.name, &l.prelude, &l.alphabet, depth, &suffix, if quick { 300 } else { 2400 }, http) {
+                jobs.push(Job { prop: prop.into(), tier: tier.into(), spec: serde_json::to_value(j).unwrap() });
+            }
         }
         alpha_desc.push(json!({"layer": l.name, "prelude": l.prelude.iter().map(|o| o.short()).collect::<Vec<_>>(), "alphabet": l.alphabet.iter().map(|o| o.short()).collect::<Vec<_>>()}));
     }
@@ -144,10 +146,10 @@ pub fn plan(prop: &str, tier: &str) -> (PropMeta, Vec<Job>) {
         id: if prop == "C05" { "C05" } else { "C06" },
         level: "model_checking",
         rule: format!(
-            "four layered alphabets (streams; topics/partitions/messages; consumer groups with two extra clients; users/tokens), each explored exhaustively to depth {depth}: every command of every history is sent through the real TCP handler of a fresh in-process server started on a copy of a template directory{}; a state is distinct by the digest of the data directory",
+            "four layered alphabets (streams; topics/partitions/messages; consumer groups with two extra clients; users/tokens), each explored exhaustively to depth {depth}: every command of every history is sent through the real handler - once over the binary TCP protocol and once over HTTP/JSON - of a fresh in-process server started on a copy of a template directory{}; a state is distinct by the digest of the data directory",
             if prop == "C05" { ", every history ends with a restart (plus restarts inside histories)" } else { "" }
         ),
-        bounds: json!({"depth": depth, "layers": alpha_desc, "transport": "tcp"}),
+        bounds: json!({"depth": depth, "layers": alpha_desc, "transports": ["tcp", "http"]}),
         assumptions: vec![
             "commands are issued sequentially by one root connection (plus two extra connections that only join/leave groups); concurrency between commands is C11's subject".into(),
             "in-process restart = System::shutdown + runtime drop + new System on the same directory, stream-id cursor reset to what a new process has".into(),
@@ -180,7 +182,8 @@ pub fn replay(prop: &str, r: &Value) -> Vec<Violation> {
     let tpl = crate::cat::build_cat_template(&scratch, &cfg, &prelude, &layer);
     let mut res = JobResult::default();
     let mut o = if prop == "C10" { super::credp::factory(prop, &cfg) } else { factory(prop, &cfg) };
-    run_chistory(prop, &scratch, &tpl, &layer, &prelude, &hist, 0, o.as_mut(), &mut res, false, None).into_iter().collect()
+    let http = r["http"].as_bool().unwrap_or(false);
+    run_chistory(prop, &scratch, &tpl, http, &layer, &prelude, &hist, 0, o.as_mut(), &mut res, false, None).into_iter().collect()
 }
 
 /// First path at which two JSON values differ.
